@@ -50,6 +50,11 @@ def cases(tier, seed):
                 cs.append({"seq": "write", "value": name, "wdata": data, "unit": memseq.unit(kind, label, list(base), **var)})
             cs.append({"seq": "write", "value": name, "wdata": data, "ignore": 1,
                        "unit": memseq.unit(kind, label, list(base), echoflip=1)})
+            # force_unlock: the lock byte is opened and closed also for values that would not need it
+            if name != "LockByte":       # (forcing the lock open to write the lock byte itself ends with the re-lock value)
+                cs.append({"seq": "write", "value": name, "wdata": data, "force": 1, "unit": memseq.unit(kind, label, list(base))})
+                cs.append({"seq": "write", "value": name, "wdata": data, "force": 1, "ignore": 1,
+                           "unit": memseq.unit(kind, label, list(base))})
             # shorter bank / hole inside the value
             for la in sorted({max(2, start - 1), start + width // 2, start + width - 1}):
                 m = list(base)
